@@ -396,6 +396,12 @@ func main() {
 		default:
 			k.Hasher = "short"
 		}
+		if r.Chance(1, 12) {
+			h := hasherOf(k.Hasher)
+			if g.plantDigest(doc, func(t string) string { return h.HashBytes([]byte(t)) }) {
+				k.Body = g.serialize(doc)
+			}
+		}
 		k.Excl = g.exclusions(doc, "direct", false)
 		run(o, k)
 	}
@@ -450,6 +456,10 @@ func main() {
 	for i := 0; i < nColl; i++ {
 		g := &gen{r: r, small: true}
 		doc := g.document()
+		if r.Chance(1, 12) {
+			h := hasherOf("md5")
+			g.plantDigest(doc, func(t string) string { return h.HashBytes([]byte(t)) })
+		}
 		k := Case{Suite: "collector", Request: r.Bool(), Body: g.serialize(doc), Hasher: "md5"}
 		k.Excl = g.exclusions(doc, "collector", k.Request)
 		run(o, k)
@@ -524,6 +534,38 @@ func fixedCases() []Case {
 	d(`["x",{"a":["y"]}]`, "[0]", "[*]", "[1].a[0]")
 	d(`{"a":1,"b":2}`, "$.response.body.a")
 	d(`{"a":1,"b":2}`, "$.request.body.b")
+	// values that look like digests / already obfuscated data are strings like any other
+	dg := `{"md5":"5f4dcc3b5aa765d61d8327deb882cf99","sha1":"da39a3ee5e6b4b0d3255bfef95601890afd80709",` +
+		`"sha256":"e3b0c44298fc1c149afbf4c8996fb92427ae41e4649b934ca495991b7852b855","upper":"5F4DCC3B5AA765D61D8327DEB882CF99",` +
+		`"uuid":"123e4567-e89b-12d3-a456-426614174000","uuidhex":"123e4567e89b12d3a456426614174000","files":[{"md5":"d41d8cd98f00b204e9800998ecf8427e"}],` +
+		`"digits":"12345678901234567890123456789012","short":"00f067aa0ba902b7","n31":"5f4dcc3b5aa765d61d8327deb882cf9"}`
+	for _, hs := range []string{"short", "md5", "fixed"} {
+		ks = append(ks, Case{Suite: "direct", Hasher: hs, Body: dg})
+		ks = append(ks, Case{Suite: "direct", Hasher: hs, Body: dg, Excl: []string{".uuid", ".files[].md5"}})
+	}
+	ks = append(ks, Case{Suite: "direct", Via: "plugin", Hasher: "md5", Body: dg, Excl: []string{".sha1"}})
+	d(`"5f4dcc3b5aa765d61d8327deb882cf99"`)
+	d(`["5f4dcc3b5aa765d61d8327deb882cf99","alice"]`)
+	// the digest of another leaf of the same document (short hasher: h(alice) = fnv32a)
+	d(`{"name":"alice","seen":"`+shortHasher{}.HashBytes([]byte("alice"))+`"}`)
+	d(`{"name":"alice","seen":"`+shortHasher{}.HashBytes([]byte("alice"))+`"}`, ".name")
+	ks = append(ks, Case{Suite: "direct", Hasher: "md5", Body: `{"name":"alice","seen":"` + hasherOf("md5").HashBytes([]byte("alice")) + `","n":7,"m":"` + hasherOf("md5").HashBytes([]byte("7.00")) + `"}`})
+	// numbers a float64 can not hold, excluded (kept as they are written) and not (hidden)
+	bn := `{"order":{"id":9007199254740993,"total":1234567.123456789012345678},"refs":[1145141919810000001,1145141919810000002],` +
+		`"max":18446744073709551615,"huge":1e400,"tiny":0.1000000000000000055511151231257827,"nz":-0,"e":1E2,"h":100,"one":1.0,"big":100000000000000000000000}`
+	d(bn)
+	d(bn, ".order.id")
+	d(bn, ".order", ".refs[]")
+	d(bn, ".refs")
+	d(bn, "$.request.body.order.id", "$.response.body.refs[]")
+	d(bn, ".max", ".huge", ".tiny", ".nz", ".e", ".h", ".one", ".big")
+	d(bn, "")
+	d(`[9007199254740993,1E2,100,-0,1e400]`, "[]")
+	d(`9007199254740993`, "")
+	d(`9007199254740993`)
+	// repeated keys inside an excluded subtree stay (the object is not rebuilt)
+	d(`{"keep":{"a":1E2,"a":9007199254740993,"b":{"k":1,"k":2}},"x":"s"}`, ".keep")
+	ks = append(ks, Case{Suite: "direct", Via: "plugin", Hasher: "short", Body: bn, Excl: []string{".order.id", ".refs[]", ".e"}})
 	ks = append(ks, Case{Suite: "direct", Via: "plugin", Hasher: "fixed", Body: un, Excl: []string{".user.name"}})
 	ks = append(ks, Case{Suite: "direct", Via: "plugin", Hasher: "short", Body: `{"a.b":"s","a":{"b":"t"}}`, Excl: []string{".a.b"}})
 	for _, via := range []string{"collector", "plugin"} {
@@ -532,6 +574,10 @@ func fixedCases() []Case {
 			ks = append(ks, Case{Suite: "rawbody", Via: via, Request: false, Off: true, Hasher: "md5", Body: body})
 		}
 		ks = append(ks, Case{Suite: "rawbody", Via: via, Request: true, Off: true, Hasher: "md5", Body: un, Excl: []string{".user.name"}})
+		// a non-JSON body that looks like a digest / a UUID is hidden like any other
+		for _, body := range []string{"d41d8cd98f00b204e9800998ecf8427e", "da39a3ee5e6b4b0d3255bfef95601890afd80709", "F4DCC3B5AA765D61D8327DEB882CF995", "c23e4567-e89b-12d3-a456-426614174000"} {
+			ks = append(ks, Case{Suite: "rawbody", Via: via, Request: true, Hasher: "md5", Body: body})
+		}
 	}
 	for _, req := range []bool{true, false} {
 		p, q := "$.request.body", "$.response.body"
@@ -551,6 +597,11 @@ func fixedCases() []Case {
 		cl(req, `{"body":{"user":{"name":"n"}},"request":{"body":{"user":{"name":"m"}}},"response":{"body":{"user":{"name":"k"}}}}`, p+".user.name")
 		cl(req, `[{"x":1,"y":[{"x":2}]},{"x":null}]`, p+"[].y[].x")
 		cl(req, un, p+"X.name")
+		cl(req, dg)
+		cl(req, dg, p+".uuid", q+".md5")
+		cl(req, bn, p+".order.id", p+".refs[]")
+		cl(req, bn, p+".order", q+".refs")
+		cl(req, bn, p)
 	}
 	return ks
 }
